@@ -23,7 +23,9 @@ STAGES = ['banner', 'hostkey', 'password', 'passphrase', 'denied', 'termtype']
 FINALS = ['shell_sh', 'shell_csh', 'shell_zsh', 'silent', 'closed', 'exit']
 
 
-def run_login(tid, stages, final, sync, reset, extra=None):
+def run_login(tid, stages, final, sync, reset, extra=None, h=None):
+    if h is None:
+        h = tid if isinstance(tid, int) else 0
     clock = VClock().install(pexpect.expect, pxssh)
     install_shim()
     srv = FakeServer(list(stages), final.replace('shell_', 'shell:'))
@@ -45,14 +47,33 @@ def run_login(tid, stages, final, sync, reset, extra=None):
     nlog = len(srv.log)
     cmds = []
     if ret == 'True' and reset and not p.closed:
-        for word in ('xyz', 'a b', ''):
+        # after login prompt() delimits each command's output exactly: commands answered one at a time, and commands
+        # typed ahead (several results, short and long, waiting in one read); the server's output in pieces of every size
+        words = [('xyz', 'a b', ''), ('w' * 70 + ' end', 'id', ''), ('x', 'y' * 150, 'z' * 3000, 'q'),
+                 ('ab', 'cd', 'ef', 'gh', 'ij')][h % 4]
+        ahead = (h // 4) % 2 == 1
+        p.chunk = [None, 1, 7, 64][(h // 8) % 4]
+
+        def one(word):
             try:
-                p.sendline('echo ' + word)
                 ok = p.prompt(timeout=5)
                 cmds.append({'ok': bool(ok), 'before': p.before.decode('latin-1') if p.before is not None else None,
                              'want': word + '\r\n'})
             except Exception as e:
                 cmds.append({'ok': False, 'before': type(e).__name__, 'want': word + '\r\n'})
+        try:
+            if ahead:
+                for word in words:
+                    p.sendline('echo ' + word)
+                for word in words:
+                    one(word)
+            else:
+                for word in words:
+                    p.sendline('echo ' + word)
+                    one(word)
+        except Exception as e:
+            cmds.append({'ok': False, 'before': type(e).__name__, 'want': '<send>'})
+        p.chunk = None
     clock.uninstall()
     uninstall_shim()
     ev = []
@@ -69,7 +90,7 @@ def run_login(tid, stages, final, sync, reset, extra=None):
                        'prompt_unique': srv.prompt == UNIQUE, 'closed': bool(p.closed),
                        'elapsed': int(elapsed + 0.999), 'bound': bound},
             'cmds': cmds,
-            'meta': {'stages': list(stages), 'final': final, 'sync': sync, 'reset': reset, 'extra': extra or {}}}
+            'meta': {'stages': list(stages), 'final': final, 'sync': sync, 'reset': reset, 'extra': extra or {}, 'h': h}}
 
 
 _FINAL = re.compile(r'<< ?"FINAL", (<<.*?>>), "(\w+)", (TRUE|FALSE), (TRUE|FALSE), "(\w+)", (<<.*?>>) ?>>')
@@ -182,7 +203,7 @@ def run(ctx):
 def replay(ctx):
     d = json.load(open(ctx.replay))
     m = d['case']['meta']
-    t = run_login('replay', tuple(m['stages']), m['final'], m['sync'], m['reset'], m.get('extra'))
+    t = run_login('replay', tuple(m['stages']), m['final'], m['sync'], m['reset'], m.get('extra'), h=m.get('h', 0))
     v, _ = tracecheck.validate([{k: t[k] for k in ('id', 'ev', 'opts', 'result', 'cmds')}], 'PxsshTrace', ctx.work, procs=1,
                                tag='replay', pass_through=True)
     print(json.dumps(t, indent=1)[:3000])
